@@ -163,7 +163,8 @@ class Farm:
     def build(self, key, src, extra_files=None, race=False):
         """Generate and compile one program.  Returns a dict:
         status: ok | gen-fail | compile-fail | nondeterministic ; dir ; detail"""
-        d = self.shape_dir(key) + ("_race" if race else "")
+        # the directory is keyed by the program's name AND its source (a hand-written program may change under the same name)
+        d = self.shape_dir(key + "\n" + src) + ("_race" if race else "")
         st = os.path.join(d, "status.json")
         if os.path.exists(st):
             res = json.load(open(st))
